@@ -68,7 +68,7 @@ def main():
         # restore the generated data and build state for /repo itself
         sh([sys.executable, "-B", os.path.join(ROOT, "tools", "translate.py")], cwd=ROOT)
     print(json.dumps({k: v for k, v in out.items() if k != 'checks'}))
-    with open(os.path.join(d, 'eval.json'), 'w') as f:
+    with open(os.path.join(d, os.environ.get('EVALMUT_JSON', 'eval.json')), 'w') as f:
         json.dump(out, f, indent=1)
 
 
